@@ -27,6 +27,10 @@ CFG = {
         # raw-text elements with one string child (formerly the OPEN statement)
         "Leptos.Macro.C18_rawtext_single",
         "Leptos.Macro.raw_parse",
+        # <textarea> text: escaped on both paths (tachys 7006223 / 01b809d, macro fix-c18-5), for every string
+        "Leptos.Macro.C18_textarea_single",
+        "Leptos.Macro.run_textareaBody",
+        "Leptos.Macro.C18_textarea_static_regression",
         # the forced-dynamic twin
         "Leptos.Macro.C18_twin_same_view",
         "Leptos.Macro.C18_twin_same_view_kids",
@@ -67,7 +71,7 @@ CFG = {
     "harness_pkg": "hx-c18",
     "harness_bin": "c18",
     "n": {"quick": 3000, "thorough": 300000},
-    "rule": "a FIXED family of 320 template shapes is compiled once with the real view! macro (harness/hx-c18/src/shape.rs, "
+    "rule": "a FIXED family of ~360 template shapes (systematic sections + 170 pseudo-random ones from their own generator state) is compiled once with the real view! macro (harness/hx-c18/src/shape.rs, "
             "build.rs): every attribute form alone and in pairs on an inner element, every tag of the family (10 block, 8 inline, "
             "p/h1-h3, a/button, 5 void, 2 custom, svg/g/circle/rect/path, textarea/script/style/noscript/title) as an inner static "
             "element, roots that are text / several nodes / fragments / the component <Wrap>, the shapes of the four finding "
@@ -76,7 +80,10 @@ CFG = {
             "components, MathML and SVG subtrees, 17-20 children so that tuples are chunked — each inside a fully static and "
             "inside a dynamic non-root element, at the root, inside fragments and components; <!DOCTYPE html> as first root), elements with markup-significant text "
             "BELOW <noscript> (the one non-escaping element that may contain markup) on the static and on the builder path, custom "
-            "elements with dynamic attributes/children, then pseudo-random templates of depth <= 3 (0-3 attributes of 8 forms per element, quoted and unquoted text, "
+            "elements with dynamic attributes/children, <textarea> literals with & < > </textarea> and a leading line feed, the "
+            "self-closing syntax <tag …/> on non-void / custom / SVG elements (about half of all childless elements), boolean / "
+            "int / float / char LITERAL attribute values, white-space-only and NBSP text (also in <pre>) — each in static and in "
+            "dynamic subtrees, then pseudo-random templates of depth <= 3 (0-3 attributes of 8 forms per element, quoted and unquoted text, "
             "{blocks} only in dynamic subtrees, fragments (possibly empty), comments, components, svg, math in static and dynamic "
             "subtrees alike; 3/5 of the subtrees without dynamic holes). Each shape in three "
             "variants: as written, forced-dynamic twin (every literal a {..} with the same value), one extra dynamic sibling inside "
@@ -99,11 +106,15 @@ CFG = {
         "a <noscript> WITH element children is read by the oracle as a user agent without scripting reads it (content = markup), "
         "a <noscript> with only strings as the scripting-enabled parser reads it (raw text); futures::executor::block_on + "
         "StreamBuilder::collect for the streams",
+        "<pre> is read by the oracle as a custom element (the parser's dropping of a line feed right after <pre> is not modelled; "
+        "the family never starts a <pre> with a line feed)",
         "Rust slice::sort_by on <= 20 attributes (insertion sort: the model's stable 3-way partition), str::trim",
     ],
     "modelled": ["leptos_macro/src/view/mod.rs: is_inert_element, inert_element_to_tokens (NoGlobalClass), node_to_tokens, "
                  "fragment_to_tokens / children_to_tokens (top_level), element_to_tokens (attribute sort, is_self_closing), "
-                 "attribute_to_tokens / class_to_tokens / style_to_tokens / attribute_value for the 8 attribute forms of the grammar",
+                 "attribute_to_tokens / class_to_tokens / style_to_tokens / attribute_value for the 8 attribute forms of the grammar "
+                 "(non-string literal values are decoded as the expression forms: the macro does not distinguish them); the "
+                 "<textarea> case of the static printer (fix-c18-5)",
                  "component_builder.rs: children of a component as a top-level fragment (the component <Wrap> only)",
                  "tachys InertElement::to_html_with_buf; HtmlElement / strings / attributes as in C06; HtmlElement::to_html_async_with_buf "
                  "(opening tag, children with E::ESCAPE_CHILDREN, closing tag from self.tag.tag()) for synchronous content"],
